@@ -54,6 +54,7 @@ type Run struct {
 	chanMemo  []chanSite
 	entryMemo map[*Func]lockset
 	callSites map[*Func][]callSite
+	litSites  map[*Func][]callSite
 	feasible  map[*Func][]Path
 	neverErr  map[*types.Func]int
 }
